@@ -307,6 +307,7 @@ unit({
     'name': 'bmph',
     'includes': ['wr.h'],
     'ctor_calls': {'vec_u8': {'fn': 'vec_u8_ctor_fill', 'throws': True}},
+    'default_ctors': {'BitmapFile': 'BitmapFile_ctor0'},
     'typemap': dict(BMP_TM, **{'Stream::Writer': 'Wr'}),
     'enums': [('src/Bitmap/BmpCompression.h', 'BmpCompression'), ('src/Bitmap/BitmapFile.h', 'ScanLineOrientation')],
     'structs': [STR_VIEW] + BMP_STRUCTS,
@@ -326,6 +327,11 @@ unit({
         _bf('VerifyPixelSizeMatchesImageDimensionsWithPitch', nparams=4, static=True),
         _bf('VerifyIndexedImageForSerialization', static=True),
         _bf('GetScanLineOrientation'), _bf('AbsoluteHeight'),
+        _bf('CreateIndexed', nparams=3, static=True, members={}, ret_cxx='BitmapFile',
+            calls={'Create': [(r'ImageHeader', T('ImageHeader_Create', recv='none')), (r'BmpHeader', N('BmpHeader_Create', recv='none'))],
+                   'resize': [(r'.*palette', T('vec_Color_resize')), (r'.*pixels', T('vec_u8_resize'))],
+                   'CalcMaxIndexedPaletteSize': {0: T('ImageHeader_CalcMaxIndexedPaletteSize0')}, 'CalculatePitch': {0: N('ImageHeader_CalculatePitch0')}},
+            views=[(r'bitmapFile\.palette', 'vec'), (r'bitmapFile\.pixels', 'vec')]),
         {'file': 'src/Bitmap/Color.cpp', 'qual': 'Color::SwapRedAndBlue', 'cls': 'Color', 'cname': 'Color_SwapRedAndBlue'},
         {'file': 'src/Bitmap/IndexedBmpWriter.cpp', 'qual': 'BitmapFile::WritePixels', 'cls': 'BitmapFile', 'static': True, 'cname': 'BitmapFile_WritePixels', 'members': {},
          'calls': {'Write': {2: T('Wr_Write'), 1: T('Wr_Write', args=['vec'])}}, 'views': [(r'\(\*pixels\)', 'vec'), (r'padding', 'vec')]},
@@ -384,6 +390,13 @@ unit({
         _fn(TL, 'CalculatePbmpSectionSize', 'Tileset_CalculatePbmpSectionSize', ordinal=0),
         _fn(TL, 'CalculatePixelHeaderLength', 'Tileset_CalculatePixelHeaderLength', ordinal=0),
         _fn(TL, 'ValidateTileset', 'Tileset_ValidateTileset', ordinal=0),
+        _fn(TL, 'ReadCustomTileset', 'Tileset_ReadCustomTileset', ordinal=1, ret_cxx='BitmapFile',
+            calls={'Read': {1: [(r'bitmapFile\.(palette|pixels)', T('Rd_Read', args=['vec'])), (r'.*', T('Rd_Read', args=['obj']))]},
+                   'Validate': [(r'tilesetHeader', T('TilesetHeader_Validate')), (r'ppalHeader', T('PpalHeader_Validate'))],
+                   'ValidateFileSignatureHeader': T('Tileset_ValidateFileSignatureHeader', recv='none', args=['ref']), 'ValidatePaletteHeader': T('Tileset_ValidatePaletteHeader', recv='none', args=['ref']),
+                   'ValidatePixelHeader': T('Tileset_ValidatePixelHeader', recv='none', args=['ref', None]), 'CreateIndexed': T('BitmapFile_CreateIndexed', recv='none'),
+                   'SwapRedAndBlue': N('BitmapFile_SwapRedAndBlue'), 'ValidateTileset': T('Tileset_ValidateTileset', recv='none', args=['ref'])},
+            views=[(r'bitmapFile\.palette', 'vec'), (r'bitmapFile\.pixels', 'vec')]),
         _fn(TL, 'PeekIsCustomTileset', 'Tileset_PeekIsCustomTileset', ordinal=1, typemap={'Stream::BidirectionalReader': 'Rd'},
             calls={'Peek': {1: T('Rd_PeekTag', args=['obj'])}, 'Read': {1: T('Rd_Read', args=['obj'])}, 'SeekBeginning': T('Rd_SeekBeginning')}),
         _fn(TL, 'SwapPaletteRedAndBlue', 'Tileset_SwapPaletteRedAndBlue', ordinal=0, rangefor={'color': 'Color'}, views=[(r'\(\*palette\)', 'vec')]),
